@@ -103,6 +103,20 @@ def window1(val: int) -> bool:
     return _judge(_get_class(), data)
 
 
+# boundary characters for text formats: controls, separators, quotes, digits, letters, DEL and non-ASCII bytes
+ALPHABET = [0, 9, 10, 13, 32, 34, 37, 44, 45, 47, 48, 57, 58, 59, 61, 64, 65, 92, 122, 127, 128, 255]
+
+
+def window1a(val: int) -> bool:
+    """post: _"""
+    if not any([val == char for char in ALPHABET]):  # pylint: disable=use-a-generator
+        return True
+    seed = bytes.fromhex(P['SEED'])
+    pos = P['POS']
+    data = seed[:pos] + bytes([val]) + seed[pos + 1:]
+    return _judge(_get_class(), data)
+
+
 def window2(val_a: int, val_b: int) -> bool:
     """post: _"""
     if not (0 <= val_a < 256 and 0 <= val_b < 256):
@@ -145,8 +159,20 @@ def _positions(seed, tier, rng, per_seed):
     return sorted(head + rest[:per_seed - len(head)])
 
 
-def window_shards(mode, tier, seed_value, per_seed=4, timeout=25, tag='w'):
+TEXT_MODULES = ('cryptoparser.httpx.', 'cryptoparser.dnsrec.txt', 'cryptoparser.common.field',
+                'cryptoparser.common.classes', 'cryptoparser.ssh.version')
+
+
+def is_text_class(name):
+    return name.startswith(TEXT_MODULES)
+
+
+def window_shards(mode, tier, seed_value, per_seed=2, timeout=15, tag='w'):  # pylint: disable=too-many-arguments,too-many-locals,too-many-branches
+    """quick: shortest accepted seed per class, `per_seed` positions (first byte + rotated); binary classes get all
+    256 values of the byte, text classes the ALPHABET of boundary characters.  thorough: up to three seeds per
+    class, every position up to 48 bytes, all 256 values, plus two-byte windows on the first positions."""
     rng = random.Random(seed_value)
+    thorough = tier == 'thorough'
     out = []
     for cls, seeds in registry.seeded_classes():
         name = registry.class_name(cls)
@@ -160,28 +186,36 @@ def window_shards(mode, tier, seed_value, per_seed=4, timeout=25, tag='w'):
         if not accepted:
             continue
         accepted.sort(key=lambda item: (len(item), item))
-        chosen = accepted if tier == 'thorough' else accepted[:1] + ([accepted[-1]] if len(accepted) > 1 and
-                                                                      len(accepted[-1]) <= 64 else [])
+        chosen = accepted[:3] if thorough else accepted[:1]
         short = name.replace('cryptoparser.', '')
+        text = is_text_class(name)
         for sidx, data in enumerate(chosen):
-            if len(data) > (600 if tier == 'thorough' else 120):
+            if len(data) > (400 if thorough else 120) or not data:
                 continue
-            for pos in _positions(data, tier, rng, per_seed):
+            if thorough:
+                positions = list(range(min(len(data), 48)))
+            else:
+                rest = list(range(1, len(data)))
+                rng.shuffle(rest)
+                positions = sorted([0] + rest[:per_seed - 1])
+            for pos in positions:
+                fn = 'window1' if (thorough or not text) else 'window1a'
+                what = 'all 256 values' if fn == 'window1' else 'the %d boundary characters' % len(ALPHABET)
                 out.append(Shard(
-                    MOD, 'window1', '%s/%s/s%d/p%d' % (tag, short, sidx, pos),
+                    MOD, fn, '%s/%s/s%d/p%d' % (tag, short, sidx, pos),
                     {'MODE': mode, 'CLASS': name, 'SEED': data.hex(), 'POS': pos},
-                    timeout=60 if tier == 'thorough' else timeout,
-                    bounds='all 256 values of byte %d of an accepted %d-byte vector' % (pos, len(data)),
-                    group='%s/%s' % (tag, short)))
-            if tier == 'thorough':
-                for pos in range(0, min(len(data) - 1, 6)):
+                    timeout=(90 if text else 45) if thorough else timeout,
+                    bounds='%s of byte %d of an accepted %d-byte vector' % (what, pos, len(data)),
+                    group='%s/%s' % (tag, short), twin=(mode != 'c02')))
+            if thorough and not text:
+                for pos in range(0, min(len(data) - 1, 4)):
                     out.append(Shard(
                         MOD, 'window2', '%s2/%s/s%d/p%d' % (tag, short, sidx, pos),
                         {'MODE': mode, 'CLASS': name, 'SEED': data.hex(), 'POS': pos}, timeout=90,
                         bounds='all 65536 values of bytes %d..%d of an accepted %d-byte vector' % (
                             pos, pos + 1, len(data)),
                         group='%s2/%s' % (tag, short)))
-            if mode in ('c02', 'c03'):
+            if mode in ('c02', 'c03') and (thorough or sidx == 0):
                 out.append(Shard(MOD, 'truncated', '%s-trunc/%s/s%d' % (tag, short, sidx),
                                  {'MODE': mode, 'CLASS': name, 'SEED': data.hex()}, timeout=60,
                                  bounds='every proper prefix of an accepted %d-byte vector (concrete)' % len(data),
@@ -189,15 +223,17 @@ def window_shards(mode, tier, seed_value, per_seed=4, timeout=25, tag='w'):
     return out
 
 
-def unconstrained_shards(mode, tier, calibration, timeout=12):
+def unconstrained_shards(mode, tier, calibration, timeout=10):
     out = []
     for cls in registry.leaf_parsable_classes():
         name = registry.class_name(cls)
         short = name.replace('cryptoparser.', '')
         if tier == 'thorough':
-            length = 6
+            length = 6 if not is_text_class(name) else 3
+        elif name not in calibration:
+            continue    # not exhaustible within the quick cap even at L=2; left to the windows and the thorough tier
         else:
-            length = calibration.get(name, 1)
+            length = calibration[name]
         out.append(Shard(MOD, 'unconstrained', 'u/%s/L%d' % (short, length),
                          {'MODE': mode, 'CLASS': name, 'L': length}, timeout=120 if tier == 'thorough' else timeout,
                          bounds='every byte string of length <= %d' % length, group='u/%s' % short))
